@@ -12,6 +12,7 @@ mod pm;
 mod props;
 mod report;
 mod search;
+mod tracejudge;
 mod trees;
 
 fn main() {
@@ -26,6 +27,7 @@ fn main() {
 	}
 	match args[1].as_str() {
 		"replay" => props::replay(&args[2]),
+		"judge-traces" => tracejudge::judge_dir(&args[2]),
 		p => {
 			let tier = args.get(2).map(|s| s.as_str()).unwrap_or("quick");
 			props::run(p, tier)
